@@ -46,7 +46,7 @@ fn export_modules(db: &DbIndex) -> Vec<Module> {
     };
     let vfs = db.get_vfs();
 
-    modules
+    let mut modules: Vec<Module> = modules
         .into_iter()
         .filter(|module| module_index.is_main(&module.file_id))
         .filter_map(|module| {
@@ -84,7 +84,10 @@ fn export_modules(db: &DbIndex) -> Vec<Module> {
                 using,
             })
         })
-        .collect()
+        .collect();
+    // `get_module_infos` iterates a hash map: sort so that two exports of one workspace are identical
+    modules.sort_by(|a, b| (&a.name, &a.file).cmp(&(&b.name, &b.file)));
+    modules
 }
 
 fn export_types(db: &DbIndex) -> Vec<Type> {
@@ -103,7 +106,7 @@ fn export_types(db: &DbIndex) -> Vec<Type> {
         types
     };
 
-    types
+    let mut types: Vec<Type> = types
         .into_iter()
         .filter(|type_decl| {
             type_decl
@@ -122,7 +125,10 @@ fn export_types(db: &DbIndex) -> Vec<Type> {
                 None
             }
         })
-        .collect()
+        .collect();
+    // `get_all_types` iterates a hash map: sort so that two exports of one workspace are identical
+    types.sort_by(|a, b| type_name(a).cmp(type_name(b)));
+    types
 }
 
 fn export_globals(db: &DbIndex) -> Vec<Global> {
@@ -140,7 +146,7 @@ fn export_globals(db: &DbIndex) -> Vec<Global> {
         globals
     };
 
-    globals
+    let mut globals: Vec<Global> = globals
         .into_iter()
         .filter(|global| module_index.is_main(&global.file_id))
         .filter_map(|global| {
@@ -167,7 +173,11 @@ fn export_globals(db: &DbIndex) -> Vec<Global> {
                 })),
             }
         })
-        .collect()
+        .collect();
+    // `get_all_global_decl_ids` iterates a hash map: sort so that two exports of one workspace are
+    // identical (the sort is stable: declarations of one name on one line keep their order)
+    globals.sort_by(|a, b| global_sort_key(a).cmp(&global_sort_key(b)));
+    globals
 }
 
 fn export_class(db: &DbIndex, type_decl: &LuaTypeDecl) -> Class {
@@ -415,4 +425,20 @@ fn export_loc(vfs: &Vfs, file_id: FileId, range: TextRange) -> Option<Loc> {
         file: document.get_file_path().clone(),
         line: document.get_line(range.start()).unwrap_or_default() + 1,
     })
+}
+
+fn type_name(typ: &Type) -> &str {
+    match typ {
+        Type::Class(class) => &class.name,
+        Type::Enum(enm) => &enm.name,
+        Type::Alias(alias) => &alias.name,
+    }
+}
+
+fn global_sort_key(global: &Global) -> (&str, Option<(&std::path::Path, usize)>) {
+    let (name, loc) = match global {
+        Global::Table(table) => (&table.name, &table.loc),
+        Global::Field(field) => (&field.name, &field.loc),
+    };
+    (name.as_str(), loc.as_ref().map(|loc| (loc.file.as_path(), loc.line)))
 }
